@@ -1,5 +1,6 @@
 import Shisui.Store.Refinement
 import Shisui.Store.Reach
+import Shisui.Store.RefinementReopen
 /-! # C04 — Stored content is returned intact and nothing else is
 
 Model with values: `Sv` (`storage/pebble/storage.go:181-232`), refinement to "value of the last accepted put per id".
@@ -57,9 +58,27 @@ theorem key_zero_iff (node a : Nat) : a ^^^ node = 0 ↔ a = node := by
   · intro h; exact xor_key_injective node a node (by rw [h, Nat.xor_self])
   · intro h; rw [h, Nat.xor_self]
 
+/-- "…and across close and reopen": an id returns after close + reopen (with any capacity) what it returned before, or
+    nothing if the open pruned it; a store that fits its capacity comes back item for item -/
+theorem get_across_reopen (prune : Store → Store) (hp : ∀ s, PruneOf s (prune s)) (maxR : Nat) (s : Store) (cap k : Nat) :
+    (get k (reopen prune maxR s cap).items = get k s.items ∨ get k (reopen prune maxR s cap).items = none) ∧
+    (s.tracked ≤ cap → (reopen prune maxR s cap).items = s.items) :=
+  ⟨Sv.reopen_get prune hp maxR s cap k, Sv.reopen_same prune maxR s cap⟩
+
+/-- every history mixing puts, overwrites and close/reopen with any capacities: whatever `get` returns is the value of the
+    latest accepted put for that id -/
+theorem get_only_put_with_reopen (prune : Store → Store) (hp : ∀ s, PruneOf s (prune s)) (maxR : Nat) (ops : List Op)
+    (s : Store) (sp : Spec) (h : Refines s sp) :
+    Refines (runOps prune maxR s sp ops).1 (runOps prune maxR s sp ops).2 := Sv.runOps_refines prune hp maxR ops s sp h
+
+example : get 5 (reopen id 100 { items := ins 5 [1, 2] [], tracked := 34, radius := 100, cap := 50 } 40).items = some [1, 2] := by
+  decide
+
 example : get 5 (ins 5 [1, 2] (ins 5 [9] [])) = some [1, 2] := by decide   -- overwrite returns the new bytes
 example : get 5 (ins 5 [] []) = some [] := by decide                        -- empty value
 
+#print axioms get_across_reopen
+#print axioms get_only_put_with_reopen
 #print axioms refused_put_noop
 #print axioms get_after_put
 #print axioms get_only_put
